@@ -70,7 +70,7 @@ def note_distribution(st, recipe, geo, bm):
     d['permeability_angle:' + ('0' if geo.permeability_angle == 0 else 'nonzero')] += 1
     d['tilted:' + ('yes' if (geo.gdcx or geo.gdcy) else 'no')] += 1
     ops = [o[0] for o in recipe.get('ops', [])]
-    for o in ('rotate', 'translate', 'refine', 'refine_layers'):
+    for o in ('rotate', 'translate', 'refine', 'refine_layers', 'centres'):
         if o in ops: d['op:' + o] += 1
     # hypotheses of the theorems, measured on the real object
     lays = geo.layerlist
@@ -185,7 +185,7 @@ def run(ctx):
                 'uniform/random/geometric spacings, origins up to 1e5, 4 conventions, l/r justification, case, alphabetic character sets, 2-D slices), '
                 'the shipped irregular geometries g1..g7 (g7 and one large one in the quick tier, all in the thorough tier), column refinements of both (triangular transition columns) '
                 'and layer refinements, then rotated/translated, atmosphere type 0/1/2, block order None/layer_column/dmplex, permeability angle, GDCX/GDCY tilt, '
-                'atmosphere volume/connection, explicit column surfaces (default; on a layer boundary; above the top layer; thin slivers; inside the bottom layer; sloping), '
+                'atmosphere volume/connection, layer centres off the mid-point, explicit column surfaces (default; on a layer boundary; above the top layer; thin slivers; inside the bottom layer; sloping), '
                 'no block map / empty / partial / total block map.  A case is distinct by its recipe and non-trivial when the grid has rock blocks.')
     ctx.trusted += ['Coq 8.16.1 kernel (coqc); vm_compute only on closed terms inside Example proofs; no native_compute; Props.v is axiom-free, PropsR.v (the same connection statements read in R with sqrt) uses the stdlib axioms of the classical reals',
                     'coq/C04/FromGeo.v: hand transcription of mulgrids.py 790-881, 1381-1455, geometry.line_projection and t2grids.py 282-318, 341-434 (validated on every run by the correspondence, not derived from the source)',
@@ -213,9 +213,9 @@ def run(ctx):
     def deep(broken):
         rng = random.Random(ctx.seed + 4041)
         ctx.rng = rng
-        t0 = time.time()
-        cap = 900 if ctx.thorough else 60
-        while time.time() - t0 < cap and not ctx.new_failures:
+        # bounded by a case count (deterministic), not by the clock
+        for _ in range(40 if ctx.thorough else 6):
+            if ctx.new_failures: break
             check_batch(ctx, None, st, generate(ctx, 100, st, big=True), 'deep')
 
     return ctx.finish(deep_search=deep)
